@@ -161,9 +161,10 @@ def shipped_patterns():
     return out
 
 
-def run_pipeline(exe, cfg, args, seed, stdin_lines=None):
-    """harness | driver ; returns parsed driver output"""
-    env = dict(os.environ, VERIF_SEED=str(seed), VERIF_CFG=cfg, VERIF_PATTERNS=os.path.join(BUILD, "patterns.txt"), **SAN_ENV)
+def run_pipeline(exe, cfg, args, seed, stdin_lines=None, keep=""):
+    """harness | driver ; returns parsed driver output.  keep: which observation tokens the model/implementation comparison
+    looks at for this property (comma-separated token prefixes; empty = everything)"""
+    env = dict(os.environ, VERIF_SEED=str(seed), VERIF_CFG=cfg, VERIF_KEEP=keep, VERIF_PATTERNS=os.path.join(BUILD, "patterns.txt"), **SAN_ENV)
     errf = open(os.path.join(BUILD, "stderr.%d.%s" % (os.getpid(), hashlib.md5(" ".join(args).encode()).hexdigest()[:8])), "w+")
     h = subprocess.Popen([exe] + args, stdin=subprocess.PIPE if stdin_lines is not None else subprocess.DEVNULL,
                          stdout=subprocess.PIPE, stderr=errf, env=env)
@@ -204,10 +205,10 @@ def run_pipeline(exe, cfg, args, seed, stdin_lines=None):
     return res
 
 
-def run_domain(exe, cfg, dom, tier, seed, shards=NCPU):
+def run_domain(exe, cfg, dom, tier, seed, shards=NCPU, keep=""):
     import concurrent.futures as cf
     with cf.ThreadPoolExecutor(max_workers=shards) as ex:
-        futs = [ex.submit(run_pipeline, exe, cfg, [dom, tier, str(i), str(shards)], seed) for i in range(shards)]
+        futs = [ex.submit(run_pipeline, exe, cfg, [dom, tier, str(i), str(shards)], seed, None, keep) for i in range(shards)]
         parts = [f.result() for f in futs]
     agg = {"diff": [], "reject": [], "fault": [], "unparsed": [], "cases": 0, "nontrivial": 0, "tags": {}, "samples": [],
            "errors": []}
@@ -226,8 +227,8 @@ def run_domain(exe, cfg, dom, tier, seed, shards=NCPU):
     return agg
 
 
-def replay_cases(exe, cfg, cases, seed=1):
-    return run_pipeline(exe, cfg, ["replay"], seed, stdin_lines=cases)
+def replay_cases(exe, cfg, cases, seed=1, keep=""):
+    return run_pipeline(exe, cfg, ["replay"], seed, stdin_lines=cases, keep=keep)
 
 
 # ---------------------------------------------------------------------------------------------
@@ -307,7 +308,10 @@ def check_property(pid, tier, seed, replay=None):
         try:
             gen = extract.generate("A")
             notes.append("translator: %s" % json.dumps(gen["rows"]))
-        except SystemExit as e:
+            for sec, why in sorted(gen.get("failed", {}).items()):
+                # the section is generated empty / zero: whatever depends on it stops checking below (proof or correspondence)
+                notes.append("translator: section '%s' could not be extracted from the current source (%s)" % (sec, why[:200]))
+        except (SystemExit, Exception) as e:
             proof_problems.append("translator failed: %s" % e)
             gen = None
         # 2. lake build
@@ -393,7 +397,7 @@ def check_property(pid, tier, seed, replay=None):
                 if c in exes:
                     mine = [l for l in lines if l.split(" ")[0] == DOMAINS[d["name"]]["letter"]]
                     if mine:
-                        r = replay_cases(exes[c], c, mine)
+                        r = replay_cases(exes[c], c, mine, keep=d.get("keep", ""))
                         s = r["summary"] or {"cases": 0, "nontrivial": 0, "tags": {}, "samples": []}
                         r.update(cases=s["cases"], nontrivial=s["nontrivial"], tags=s["tags"], samples=s["samples"])
                         absorb(d["name"], c, r)
@@ -407,11 +411,11 @@ def check_property(pid, tier, seed, replay=None):
                 if os.path.exists(corp):
                     lines = [l.rstrip("\n") for l in open(corp) if l.strip() and not l.startswith("#")]
                     if lines:
-                        r = replay_cases(exes[c], c, lines)
+                        r = replay_cases(exes[c], c, lines, keep=d.get("keep", ""))
                         s = r["summary"] or {"cases": 0, "nontrivial": 0, "tags": {}, "samples": []}
                         r.update(cases=s["cases"], nontrivial=s["nontrivial"], tags=s["tags"], samples=s["samples"])
                         absorb(d["name"] + ".corpus", c, r)
-                absorb(d["name"], c, run_domain(exes[c], c, d["name"], tier, seed))
+                absorb(d["name"], c, run_domain(exes[c], c, d["name"], tier, seed, keep=d.get("keep", "")))
         # widened search: something no longer checks but no concrete failing input yet
         new_rejects = [r for r in rejects if not set(relevant(r)) <= known_clauses]
         if (proof_problems or diffs) and not new_rejects and not faults and tier != "thorough":
@@ -419,7 +423,7 @@ def check_property(pid, tier, seed, replay=None):
             for d in P["domains"]:
                 for c in d["cfgs"]:
                     if c in exes:
-                        absorb(d["name"] + ".widened", c, run_domain(exes[c], c, d["name"], "thorough", seed + 1))
+                        absorb(d["name"] + ".widened", c, run_domain(exes[c], c, d["name"], "widened", seed + 1, keep=d.get("keep", "")))
 
     # ---- decision
     new_rejects = [r for r in rejects if not set(relevant(r)) <= known_clauses]
@@ -502,6 +506,7 @@ def check_property(pid, tier, seed, replay=None):
             "rule": P["rule"],
             "samples": samples[:6] if samples else ["(no case executed)"],
             "per_domain": per_domain, "input_distribution": dict(sorted(tags.items())),
+            "comparison_projection": {d["name"]: (d.get("keep") or "all observation tokens") for d in P["domains"]},
             "correspondence_differences": len(diffs), "judge_rejections": len(rejects), "faults": len(faults),
             "known_findings_reproduced": sorted(known_hits), "broken_obligations": proof_problems, "notes": notes,
             "exhaustive": False,
